@@ -32,7 +32,8 @@ RULE = (
     "keep-negative}. Random: z within +-5.5 through the torch.randn seam; weights (from aggregator.weighting under "
     "the same draw and recovered from the output on full-row-rank J) strictly positive, summing to one, == "
     "softmax(z). Non-trivial: PCGrad run with >=2 successive projections of one row / GradDrop with both signs "
-    "in a column / Random always; distinct = digest of (matrix, draws)."
+    "in a column / Random always; in 40% of the Random runs the same Random object has been called before on "
+    "matrices with more/fewer rows (S3 history); distinct = digest of (matrix, draws)."
 )
 REAL = ["torchjd.aggregation.PCGrad", "torchjd.aggregation.GradDrop", "torchjd.aggregation.Random"]
 STUBS = ["torch.randperm / torch.rand / torch.randn while an aggregator call is in progress (S2 seam; draws stay inside the support of the real generators)"]
@@ -154,7 +155,11 @@ def generate(rng, tier, index):
     z = [max(-5.5, min(5.5, rng.gauss(0, 2.0))) for _ in range(m)]
     if rng.random() < 0.2:
         z[rng.randrange(m)] = rng.choice([-5.5, 5.5])
-    return {"kind": kind, "dtype": dtype, "J": J, "z": z}
+    scn = {"kind": kind, "dtype": dtype, "J": J, "z": z}
+    if rng.random() < 0.4:
+        # S3 history of the aggregator object: it has been called before, on matrices with other row counts
+        scn["prior_rows"] = [rng.choice([m + 1, m + 2, m + 4, max(1, m - 1), m]) for _ in range(rng.choice([1, 1, 2]))]
+    return scn
 
 
 class Chooser:
@@ -381,6 +386,11 @@ def execute(scn):
         A = make_agg({"kind": "Random"})
         seam = seams.RngSeam(Chooser(scn))
         with seam.armed():
+            for m0 in scn.get("prior_rows", []):
+                A(torch.ones(m0, n, dtype=dtype) * torch.arange(1, m0 + 1, dtype=dtype)[:, None])
+                stats["reach.random_instance_called_before_with_other_row_count"] = 1
+                stats["api_calls"] += 1
+            del seam.record[:]
             out = A(Jt)
             w_t = None
             try:
@@ -443,6 +453,11 @@ def evidence_extra(agg_stats, sets, tier):
 
 def shrink(scn):
     J = scn["J"]
+    if scn.get("prior_rows"):
+        for i in range(len(scn["prior_rows"])):
+            s = copy.deepcopy(scn)
+            del s["prior_rows"][i]
+            yield s
     m, n = len(J), len(J[0])
     if n > 1:
         for c in range(n):
